@@ -11,7 +11,18 @@ namespace Cluster
 namespace Snap2
 open Node Raft Raft.CC RaftProps.C02 RaftProps.C05 Snap
 
-/-- **the hypotheses of the main induction** on top of `Hyp2` (as `Snap.Hyp3`), plus
+/-- **the hypotheses of the main induction** on top of `Hyp2w` (as `Snap.Hyp3a`: `anch`, still a
+**proof gap** here; `rirs` — a `MsgReadIndexResp` was sent by a leader of its term whose commit index
+covered its index — in place of the gap `norir`; `snapt0`), plus `snapidx` -/
+structure Hyp3a (cfg : JointConfig) (c0 : Nat) (h : List Sys) : Prop extends Hyp2w cfg c0 h where
+  anch : ∀ s ∈ h, ∀ x ∈ s.net, x.msgType = .msgAppend → x.logTerm ≠ 0 ∨ x.index ≤ c0
+  rirs : ∀ n s, h[n]? = some s → ∀ x ∈ s.net, x.msgType = .msgReadIndexResp → RirSrc h n x
+  snapt0 : ∀ s0, h[0]? = some s0 → ∀ i sti, s0.node i = some sti → ∀ t0,
+    sti.raft.raftLog.abs.snapTerm = some t0 → ∀ j stj, s0.node j = some stj → t0 ≤ stj.raft.term
+  snapidx : ∀ s ∈ h, ∀ x ∈ s.net, x.msgType = .msgSnapshot → c0 < x.snapshot.metadata.index
+
+/-- **the hypotheses of the main induction as first stated** (`RaftProps/C01e.lean`, part 2) on top of
+`Hyp2` (as `Snap.Hyp3`), plus
 * `snapidx`: a `MsgSnapshot` of the transport names an index above the common initial snapshot point
   `c0` (for `c0 = 0` a fact of the model: `prepare_send_snapshot` refuses an empty snapshot). -/
 structure Hyp3 (cfg : JointConfig) (c0 : Nat) (h : List Sys) : Prop extends Hyp2 cfg c0 h where
@@ -22,15 +33,21 @@ structure Hyp3 (cfg : JointConfig) (c0 : Nat) (h : List Sys) : Prop extends Hyp2
 
 variable {cfg : JointConfig} {c0 : Nat} {h : List Sys}
 
+theorem Hyp3.toHyp2w (H : Hyp3 cfg c0 h) : Hyp2w cfg c0 h := H.toHyp2.toHyp2w
+
+theorem Hyp3.toHyp3a (H : Hyp3 cfg c0 h) : Hyp3a cfg c0 h :=
+  { toHyp2w := H.toHyp2w, anch := H.anch, snapt0 := H.snapt0, snapidx := H.snapidx,
+    rirs := fun n s hn x hx hty => absurd hty (H.norir s (mem_of_get hn) x hx) }
+
 /-- at the common initial snapshot point, a log knows no term but the one its node started with -/
 def InitSnapT (h : List Sys) (c0 v : Nat) (g : LLog) : Prop :=
   g.snapIdx = c0 → ∀ t, g.snapTerm = some t →
     ∃ s0 st0, h[0]? = some s0 ∧ s0.node v = some st0 ∧ st0.raft.raftLog.abs.snapTerm = some t
 
-theorem snapT (H : Hyp3 cfg c0 h) : ∀ (n : Nat) (s : Sys), h[n]? = some s →
+theorem snapT (H : Hyp3a cfg c0 h) : ∀ (n : Nat) (s : Sys), h[n]? = some s →
     ∀ v st, s.node v = some st → InitSnapT h c0 v st.raft.raftLog.abs ∧
       InitSnapT h c0 v (storeLog st.raft.raftLog.store) := by
-  have H2 := H.toHyp2
+  have H2 := H.toHyp2w
   refine hist_induct h _ ?_ ?_
   · intro s h0 v st hv
     obtain ⟨_, sto, hboot, hwf, _, _⟩ := H.init s h0
@@ -112,7 +129,7 @@ theorem snapT (H : Hyp3 cfg c0 h) : ∀ (n : Nat) (s : Sys), h[n]? = some s →
 
 /-- the term a node records for the common initial snapshot point is not above the initial term of any
 node -/
-theorem Hyp3.snapt (H : Hyp3 cfg c0 h) : ∀ s ∈ h, ∀ i st, s.node i = some st →
+theorem Hyp3a.snapt (H : Hyp3a cfg c0 h) : ∀ s ∈ h, ∀ i st, s.node i = some st →
     st.raft.raftLog.abs.snapIdx = c0 → ∀ t0, st.raft.raftLog.abs.snapTerm = some t0 →
     ∀ s0, h[0]? = some s0 → ∀ j st0, s0.node j = some st0 → t0 ≤ st0.raft.term := by
   intro s hs i st hi hc t0 ht0 s0 h0 j st0 hj
@@ -120,6 +137,11 @@ theorem Hyp3.snapt (H : Hyp3 cfg c0 h) : ∀ s ∈ h, ∀ i st, s.node i = some 
   obtain ⟨s0', sti, h0', hi0, he⟩ := (snapT H n s hn i st hi).1 hc t0 ht0
   rw [h0] at h0'; cases h0'
   exact H.snapt0 s0 h0 i sti hi0 t0 he j st0 hj
+
+theorem Hyp3.snapt (H : Hyp3 cfg c0 h) : ∀ s ∈ h, ∀ i st, s.node i = some st →
+    st.raft.raftLog.abs.snapIdx = c0 → ∀ t0, st.raft.raftLog.abs.snapTerm = some t0 →
+    ∀ s0, h[0]? = some s0 → ∀ j st0, s0.node j = some st0 → t0 ≤ st0.raft.term :=
+  H.toHyp3a.snapt
 
 /-- **no entry is ahead of its holder's term** — for the ghost logs, the queued and transported
 `MsgAppend`s, and the uncompacted version of every snapshot that travels; and the stored term is not
@@ -137,8 +159,8 @@ structure TermLe (h : List Sys) (c0 : Nat) (s : Sys) : Prop where
   snn : ∀ x ∈ s.net, x.msgType = .msgSnapshot →
     ∀ F, Full (HistChain h) c0 (LLog.ofSnapshot x.snapshot) F → ∀ e ∈ F.ents, e.term ≤ x.term
 
-theorem term_le (H : Hyp3 cfg c0 h) : ∀ (n : Nat) (s : Sys), h[n]? = some s → TermLe h c0 s := by
-  have H2 := H.toHyp2
+theorem term_le (H : Hyp3a cfg c0 h) : ∀ (n : Nat) (s : Sys), h[n]? = some s → TermLe h c0 s := by
+  have H2 := H.toHyp2w
   refine hist_induct h _ ?_ ?_
   · intro s h0
     have hinit := hist_init H.hist s h0
